@@ -1443,6 +1443,11 @@ def translate(spec, repo, scratch):
     defines = ['UNREACHABLE=__CPROVER_assert(0,"UNREACHABLE reached")'] + list(spec.get("defines", []))
     pp = preprocess(path, repo, defines, undefs, spec.get("incdirs", []))
     pp = re.sub(r"^[ \t]*#[ \t]*pragma[^\n]*$", "", pp, flags=re.M)   # pragmas (pack/GCC options) carry no semantics here
+    # facts about dropped initialisers that a harness re-states (e.g. constant tables built by C++ constructors): each pattern
+    # must occur in the preprocessed source of this run, otherwise the harness's copy may be stale -> ExtractError (exit 2)
+    for sm in spec.get("source_must_match", []):
+        if not re.search(sm["pattern"], pp):
+            raise ExtractError("source fact '%s' not found in %s" % (sm["name"], spec["main"]))
     for rw in spec.get("global_rewrites", []):      # recipe: textual rewrites of the whole preprocessed unit (types that the C subset cannot name)
         pp = re.sub(rw["pattern"], rw["repl"], pp)
     clean, marks = strip_linemarkers(pp)
